@@ -25,6 +25,11 @@ CHECKS = {
         text="For each geometry the expressions produced by the real get_bank_address/get_row_column_address/_AddressSlicer and the real crossbar routing are proved, for all port addresses, to equal the explicit column->bank->row layout (hence bijective), injective on two symbolic addresses, never to use A10 as a column bit, and to walk columns, banks, rows in that order; the bank machine's use of the address on ACT/RD/WR is a postcondition of the real BankMachine.",
         note="Enumerated geometries (quick 140, thorough ~600 incl. bank_byte_alignment). Preconditions explicit: bank field inside the address; addressbits >= colbits+1 when colbits>10.",
     ),
+    "C16": dict(
+        engine="PyVC", category="proof", technique="contract-based deductive verification: verification conditions generated from the AST of the real Python functions (symbolic clock frequency, ratio and datasheet numbers), discharged by z3 (cvc5 second solver); callers checked against callee contracts",
+        text="margin, ns_to_cycles, ck_to_cycles, ck_ns_to_cycles and every TimingSettings field built in SDRAMModule.__init__ are proved, for every real clock frequency, every ratio d in {1,2,4,8} and every datasheet (ck, ns) pair, to cover the nanosecond value on the worst phases and the clock count, to be the smallest such count, and tREFI not to exceed the datasheet interval; SPD bit-field helpers over their full input domain. Bounded (not counted as proved): the whole library x speedgrades x refresh modes x rates x frequency grid and the test SPD images executed in CPython against exact Fraction arithmetic.",
+        note="Python float treated as real (bounded by the Fraction cross-run); rate_frac string parsing and get()'s dynamic attribute lookup replaced by contracts that are checked natively over the finite library.",
+    ),
 }
 _todo = "check not built yet in this round (design in DESIGN.md §3); will be claimed when its contracts are committed"
 NOT_APPLICABLE = {("C%02d" % i): _todo for i in range(1, 21)}
